@@ -289,6 +289,21 @@ func runPath(pr *program, cfg *config, solver *Solver, item workItem, seen *inte
 			smp.PathCond = append(smp.PathCond, c.String())
 		}
 		smp.Trace = P.tracelog
+		// a concrete input vector of this path (model of the path condition) for
+		// translator validation: the native build is run on it by the driver
+		if end.status == "ok" && !P.concrete && len(res.Violations) == 0 {
+			func() {
+				defer func() { recover() }()
+				for _, in := range P.inputs {
+					if in.term != nil {
+						solver.define(in.term)
+					}
+				}
+				if solver.Check() == vSat {
+					smp.Vector = P.modelInputs()
+				}
+			}()
+		}
 		res.Sample = smp
 	}
 	solver.End()
@@ -532,7 +547,7 @@ func master(cfg *config) int {
 			queue = queue[:len(queue)-1]
 			k := idle[len(idle)-1]
 			idle = idle[:len(idle)-1]
-			if sampleBudget > 0 && sum.Paths%7 == 0 {
+			if sampleBudget > 0 && (sum.Paths < 40 && sum.Paths%5 == 0 || sum.Paths%97 == 0) {
 				it.Sample = true
 			}
 			dispatch(k, it)
